@@ -48,8 +48,10 @@ InBall(D, r) ==
             ELSE "open"
 
 \* [none, lo, hi]: every admissible result is an ascending sequence between lo and hi
+\* (with 65 or more dimensions and at least two cells the coordinate strides 2^i no longer fit 64 bits
+\* and no neighbourhood is computed: admitted as implemented, the documentation is silent)
 Neighbors(ntotal, ndim, index, r) ==
-  IF ndim < 1 \/ ntotal < 1 THEN [none |-> TRUE, lo |-> <<>>, hi |-> <<>>]
+  IF ndim < 1 \/ ntotal < 1 \/ (ndim >= 65 /\ ntotal >= 2) THEN [none |-> TRUE, lo |-> <<>>, hi |-> <<>>]
   ELSE LET edge == Edge(ntotal, ndim)
            c0   == Decompose(index, edge, ndim)
            cls(i) == InBall(Dist2(c0, Decompose(i, edge, ndim)), r)
